@@ -96,6 +96,8 @@ def sources(tier, seed, ctx):
         srcs.append({'k': 'hist', 'init': init, 'acts': acts, 'from': 'universe'})
         if n % 10 == 0:
             srcs.append({'k': 'graphviz', 'init': init, 'from': 'graphviz'})
+        if n % 10 == 5 and blocks:
+            srcs.append({'k': 'copy-first', 'init': init, 'how': ['copy', 'deepcopy'][n % 2], 'via': ['into_bench', 'graphviz'][(n // 10) % 2], 'from': 'copy-first'})
     note.append(f'{min(take, len(nets))} of {len(nets)} universe circuits')
     nrand = 600 if tier == 'quick' else 8000
     w = {'into_bench': 4, 'add_gate': 12, 'make_block': 3, 'connect': 2}
@@ -174,7 +176,29 @@ def _bench_copy(c):
     return cb
 
 
+def _copy_converted_first(src):
+    """A copy of the circuit is converted (or drawn as bench): the circuit itself, blocks included, stays as it was."""
+    import copy as _copy
+    from .. import hist
+
+    c = hist.build(src['init'])
+    before = project(c)
+    exc = ''
+    try:
+        cp = {'copy': _copy.copy, 'deepcopy': _copy.deepcopy}[src['how']](c)
+        if src['via'] == 'into_bench':
+            cp.into_bench()
+        else:
+            cp.into_graphviz_digraph(as_bench=True)
+            c.into_graphviz_digraph(as_bench=True)
+    except Exception as e:
+        exc = type(e).__name__
+    return {'kind': 'same', 'what': 'converting-a-copy-changed-the-original', 'a': before, 'b': project(c), 'exc': exc, 'src': src}
+
+
 def record(src):
+    if src['k'] == 'copy-first':
+        return _copy_converted_first(src)
     if src['k'] == 'deep':
         from .. import deep
         # helper gates are allowed: more gates than before, all of bench types
@@ -213,7 +237,7 @@ def record(src):
 
 
 def nontrivial(case):
-    if case['kind'] in ('draw', 'transformdeep'):
+    if case['kind'] in ('draw', 'transformdeep', 'same'):
         return True
     bench = set(gen.BENCH_TYPES) | {'INPUT'}
     first = case['init']
@@ -224,6 +248,8 @@ def nontrivial(case):
 def features(case):
     if case['kind'] == 'transformdeep':
         return {'deep:into_bench'}
+    if case['kind'] == 'same':
+        return {'copy-converted-first'}
     if case['kind'] == 'draw':
         return {'graphviz-as-bench'} | ({'graphviz-with-block-clusters'} if case['clusters'] else set())
     seen = H.step_features(case, {'into_bench'})
